@@ -454,23 +454,35 @@ class Runner:
         """harness over all cases; risky cases (and whatever follows a dead process) in processes of their own"""
         res, errs = {}, {}
         safe = [k for k, c in enumerate(cases) if not c["risky"]]
-        todo = list(safe)
-        while todo:
+        chunk = 100 if self.env else 1000
+        queue = [safe[i:i + chunk] for i in range(0, len(safe), chunk)]
+        while queue:
+            todo = queue.pop(0)
+            if not todo:
+                continue
             rc, blocks, err = self.harness([cases[k] for k in todo], todo)
             done = [k for k in todo if k in blocks]
+            # sanitizer build: after the first report the process has touched memory it does not own; what follows in that
+            # process is not evidence: the cases after the reporting one get a fresh process
+            first = next((k for k in done if any("asan" in d for d in blocks[k])), None) if self.env else None
+            if first is not None:
+                for k in done[:done.index(first) + 1]:
+                    res[k], errs[k] = blocks[k], err
+                queue.insert(0, todo[todo.index(first) + 1:])
+                continue
             for k in done:
-                res[k] = blocks[k]
-                errs[k] = err if self.env else ""
-            if rc == 0 or not done:
-                if rc != 0 and todo:
-                    res[todo[0]] = res.get(todo[0], []) + [{"j": -1, "op": "?", "process": "rc=%d" % rc, "stderr": err[-1500:]}]
-                    todo = todo[1:]
-                    continue
-                break
-            last = done[-1]            # the process died in this case
-            res[last].append({"j": len(res[last]), "op": cases[last]["ops"][len(res[last])].split()[0] if len(res[last]) < len(cases[last]["ops"]) else "?",
+                res[k], errs[k] = blocks[k], (err if self.env else "")
+            if rc == 0:
+                continue
+            if not done:            # died before the first case started
+                res[todo[0]] = [{"j": 0, "op": "?", "process": "rc=%d" % rc, "stderr": err[-1500:]}]
+                queue.insert(0, todo[1:])
+                continue
+            last = done[-1]         # the process died in this case
+            n = len(res[last])
+            res[last].append({"j": n, "op": cases[last]["ops"][n].split()[0] if n < len(cases[last]["ops"]) else "?",
                               "process": "rc=%d" % rc, "stderr": err[-1500:]})
-            todo = todo[todo.index(last) + 1:]
+            queue.insert(0, todo[todo.index(last) + 1:])
         for k, c in enumerate(cases):
             if c["risky"]:
                 rc, blocks, err = self.harness([c], [k], timeout=120)
@@ -514,6 +526,7 @@ class Runner:
 
 WR_OPS = {"getPrimalReal", "getDualReal", "getRedCostReal", "getLowerReal", "getUpperReal", "getObjReal", "getRowVectorReal"}
 VEC_GETTERS = {"getLowerReal", "getUpperReal", "getObjReal", "getPrimalRationalString"}
+FORWARDERS = {"optimize", "readInstanceFile", "readBasisFile", "readSettingsFile", "writeFileReal"}
 
 
 def big(s):
@@ -568,6 +581,8 @@ def judge(case, hl, ml, stderr=""):
                 out.append(("cpp-array-getter-stores-beyond-dim:" + op, "the C++ member %s(array, dim=%s) stores %d elements (LP %s x %s, status %s): "
                             "the C call faults on the caller's array of dim elements" % (op, d.get("args"), len(x.split(",")), pre_of(d)[0], pre_of(d)[1],
                                                                                      pre_of(d)[7]), j))
+            elif exc.startswith("SIGNAL:14"):
+                out.append(("hang:" + op, "SoPlex_%s (or its mirror call) did not return within the watchdog time" % op, j))
             elif exc.startswith("SIGNAL"):
                 out.append(("crash:" + op, "SoPlex_%s faults: %s" % (op, exc), j))
             else:
@@ -575,7 +590,15 @@ def judge(case, hl, ml, stderr=""):
             break
         if "asan" in d:
             what = d["asan"].split(":", 1)[1]
-            if op in VEC_GETTERS and "beyond-vector" in x:
+            if what.startswith("X") or op in FORWARDERS:
+                # reported while the C++ member ran on the mirror object, or inside a member that receives no array from the
+                # caller: a memory error of the library itself
+                out.append(("@asan-inside-cpp-member:" + op, "ASan: %s during %s (pre=%s)" % (what, op, d.get("pre")), j))
+            elif op in ("getPrimalReal", "getDualReal", "getRedCostReal") and x not in ("-", ".") and len(x.split(",")) > int(d.get("args", "0")):
+                out.append(("cpp-array-getter-stores-beyond-dim:" + op, "ASan: %s: the C++ member %s(array, dim=%s) stores %d elements (LP %s x %s, status %s)" % (
+                    what, op, d.get("args"), len(x.split(",")), pre_of(d)[0], pre_of(d)[1], pre_of(d)[7]), j))
+                x = None
+            elif op in VEC_GETTERS and "beyond-vector" in x:
                 out.append(("getter-reads-beyond-vector:" + op, "ASan: %s in SoPlex_%s(dim=%s); the C++ vector has %s elements" % (
                     what, op, d.get("args"), x.split("beyond-vector:")[1]), j))
             else:
@@ -598,6 +621,11 @@ def judge(case, hl, ml, stderr=""):
         if "canary" in d:
             out.append(("canary:" + op, "SoPlex_%s wrote in front of an array argument" % op, j))
         # (a) returned values
+        if x is not None and c != x and op == "optimize" and (c.startswith(("EXC", "SPXEXC", "-15")) or x.startswith(("EXC", "SPXEXC", "-15"))):
+            # SoPlex_optimize only forwards: a solve that ends in the library's error path on one object and not (or differently) on
+            # the other is nondeterminism of the library (seen together with ASan reports inside the rational solve)
+            out.append(("@cpp-solve-error-path-differs:optimize", "optimize: C object %s, mirror %s (pre=%s)" % (c, x, d.get("pre")), j))
+            break
         if x is not None and c != x:
             if op == "objValueRationalString" and c.startswith("buflen=1,term=0"):
                 out.append(("objvalue-string-unterminated", "SoPlex_objValueRationalString returns a 1-byte buffer without terminator: %s; "
@@ -669,6 +697,19 @@ def main():
         ck.violation("codes-disagree:%s:%s" % (kind, name), "code of %s %s: documented %d, C++ enumerator %d, compiled C function %d" % (kind, name, d, c, s),
                      {"kind": "code-table", "row": {"kind": kind, "name": name, "documented": d, "cpp": c, "c_side": s},
                       "theorem": "C20_codes_agree"})
+    # ... and for the wrapped-member obligation (the expected table is read from the model file)
+    import re
+    mtxt = open(os.path.join(vlib.COQ, "CIfaceModel.v")).read()
+    mtxt = mtxt[mtxt.index("Definition expected_wraps"):]
+    mtxt = mtxt[:mtxt.index("].") + 2]
+    expected = {n: re.findall(r'"(\w+)"', ms) for n, ms in re.findall(r'\("(SoPlex_\w+)",\s*\[([^\]]*)\]\)', mtxt)}
+    defined = dict(info["defined"])
+    for n in sorted(set(info["declared"]) | set(expected)):
+        if n not in info["declared"] or defined.get(n) != expected.get(n):
+            ck.violation("wraps-disagree:" + n, "%s: declared=%s, calls %s through the handle, the model composes %s" % (
+                n, n in info["declared"], defined.get(n), expected.get(n)),
+                {"kind": "wrap-table", "function": n, "defined_members": defined.get(n), "model_members": expected.get(n),
+                 "theorem": "C20_wrappers_call_the_modelled_members"})
     ck.prove()
     try:
         model = vlib.build_model("C20")
@@ -700,8 +741,11 @@ def main():
 
     shrunk = set()
     side = {}
+    first_res = {}
     for tag, rn in runs:
         res, errs = rn.run_all(cases)
+        if tag == "g++":
+            first_res = res
         rcm, mres, merr = rn.model_run(cases, res)
         if rcm != 0:
             ck.violation("model-crash", "model runner failed rc=%d: %s" % (rcm, merr[-400:]), {"kind": "model"}, no_input=True)
@@ -718,7 +762,7 @@ def main():
                         p = d["pre"].split(",")
                         ck.count("state:%s%s%s" % ("sol" if p[2] == "1" else "nosol", "+rat" if p[3] == "1" else "", "+scaled" if p[4] == "1" else ""))
                 if len(hl) < len(c["ops"]) and not any(("exc" in d or "process" in d or d.get("c", "").startswith(("EXC", "SPXEXC"))
-                                                        or d.get("x", "").startswith(("EXC", "SPXEXC")) or d.get("eq", "").startswith("DUMP") or d.get("skip") == "out-of-step") for d in hl):
+                                                        or d.get("x", "").startswith(("EXC", "SPXEXC")) or d.get("eq", "").startswith("DUMP") or d.get("eq") == "0" or d.get("skip") == "out-of-step") for d in hl):
                     ck.violation("short-output", "harness produced fewer transcript lines than calls", {"case": c})
             for sig, what, j in fs:
                 if sig.startswith("@"):
@@ -742,6 +786,8 @@ def main():
                 ck.sample({"ops": c["ops"][:6]})
         rn.cleanup()
 
+    if ck.tier == "thorough" and not ck.args.replay:
+        incoq_sample(ck, first_res, cases)
     ck.cov["side_observations_cpp_library"] = side
     ck.cov["rule"] = ("a case is one C call with its resolved raw arguments, executed on the C object and mirrored on a C++ object inside a random "
                       "call sequence (all 56 C functions; dimension arguments equal to, larger and smaller than the LP where the C++ contract allows; "
@@ -765,6 +811,40 @@ def main():
                       "comparison is made always",
                       "doubles in generated arguments are dyadic rationals and +-1e100; NaN and -0.0 are not generated"]
     ck.finish()
+
+
+def coq_q(tok):
+    m, e = tok.split(":")
+    m, e = int(m), int(e)
+    return "(Qmake (%d)%%Z (%d)%%positive)" % ((m << e, 1) if e >= 0 else (m, 1 << -e))
+
+
+def incoq_sample(ck, res, cases, limit=25):
+    """thorough: a sample of dense->sparse conversions is re-evaluated inside Coq (vm_compute) against what the C object
+    holds, which takes extraction and the OCaml driver out of the trusted base for that sample"""
+    ex = []
+    for k in sorted(res):
+        for d in res[k]:
+            if d.get("op") in ("addColReal", "addRowReal") and d.get("obs", "-") not in ("-",) and d.get("pre", "").split(",")[4:5] == ["0"] \
+                    and "args" in d and ";" in d["args"] and len(ex) < limit:
+                head, arr = d["args"].split(";")[0].split(","), d["args"].split(";")[1]
+                toks = [t for t in arr.split(",") if t]
+                vec = d["obs"].split("vec=")[1]
+                ent = [e.split("~") for e in vec.split(",") if e]
+                ex.append("Example s%d : dense_to_sparse [%s] %s = [%s].\nProof. vm_compute. reflexivity. Qed." % (
+                    len(ex), "; ".join(coq_q(t) for t in toks), head[0], "; ".join("(%s%%nat, %s)" % (i, coq_q(v)) for i, v in ent)))
+    if not ex:
+        return
+    d = os.path.join(vlib.BUILD, "run", "C20.%d.coq" % os.getpid())
+    os.makedirs(d, exist_ok=True)
+    with open(os.path.join(d, "Sample_C20.v"), "w") as f:
+        f.write("From Coq Require Import ZArith QArith List.\nFrom SV Require Import CIfaceModel.\nImport ListNotations.\n\n" + "\n".join(ex) + "\n")
+    rc, out, err = vlib.sh(["coqc", "-Q", vlib.COQ, "SV", "-Q", os.path.join(vlib.COQ, "gen"), "SVG", "-w", "-all", "Sample_C20.v"], cwd=d, timeout=600)
+    ck.cov["in_coq_reevaluated_samples"] = len(ex) if rc == 0 else 0
+    if rc != 0:
+        ck.violation("incoq-sample", "a dense->sparse conversion observed on the C object is not what the Coq function computes: %s" % (out + err)[-600:],
+                     {"kind": "in-Coq sample", "file": open(os.path.join(d, "Sample_C20.v")).read()[:4000]})
+    shutil.rmtree(d, ignore_errors=True)
 
 
 def shrink(rn, mres, case, sig, budget=40):
